@@ -14,8 +14,18 @@ import (
 
 type sessionEngine struct{}
 
+// c05Engine adds the legacy framing: the real client against a stub v1 plugin that answers with in-process results.
+type c05Engine struct{}
+
+func (c05Engine) Run(t *testing.T, batch string, tape *rt.Tape, runIdx uint64, extra json.RawMessage, trace func(string)) RunRecord {
+	if batch == "c05.v1" {
+		return clientEngine{"C05"}.Run(t, batch, tape, runIdx, extra, trace)
+	}
+	return sessionEngine{}.Run(t, batch, tape, runIdx, extra, trace)
+}
+
 func init() {
-	engines["C05"] = sessionEngine{}
+	engines["C05"] = c05Engine{}
 	engines["C06"] = c06Engine{}
 	engines["C09"] = sessionEngine{}
 }
